@@ -287,6 +287,12 @@ def run_simels(work, w, d, extra, timeout=300):
     env = dict(os.environ)
     env["MALLOC_PERTURB_"] = "165"
     res, rc = run_json(argv, timeout=timeout, env=env)
+    if res.get("class") == "wall_timeout":
+        # not a verdict yet: with deep completion on, a schedule that favours the `load_modules`
+        # thread analyses the whole standard-library declaration tree (minutes of CPU on a loaded
+        # machine). Only a run that does not end within half an hour counts as not terminating.
+        log(f"      (slow run, repeated with a 30 min limit: {' '.join(extra)[:120]})")
+        res, rc = run_json(argv, timeout=1800, env=env)
     if res.get("class") in ("done", "panic") and not res.get("mounted"):
         raise HarnessError("simels: bind mount failed")
     return res
@@ -368,7 +374,8 @@ def sig_of(bad):
             if d.startswith("lock_timeout:"):
                 out.add("keeps_running:" + d)
             else:
-                out.add("keeps_running:" + re.sub(r"\d+", "N", d)[:120])
+                d = d.replace(MOUNT_WS, "<ws>").replace(MOUNT_ERG, "<ergpath>")
+                out.add("keeps_running:" + re.sub(r"\d+", "N", d)[:300])
         else:
             out.add(b["clause"])
     return sorted(out)
@@ -479,6 +486,8 @@ def c28_match_known(hist, sig, bad, known):
     for e in known:
         m = e.get("match", {})
         if m.get("clauses") and not all(any(x.startswith(c) for c in m["clauses"]) for x in sig):
+            continue
+        if m.get("contains") and not all(all(c in x for c in m["contains"]) for x in sig):
             continue
         if m.get("lock_files"):
             import re
